@@ -186,12 +186,18 @@ NmdNodes(s, n) == LET ds == [x \in 1..Cardinality({e \in 1..Len(s) : s[e].k = "n
                                                         /\ Cardinality({y \in 1..e : s[y].k = "nmd" /\ s[y].n = n}) = x]
                   IN Concat([x \in 1..Len(ds) |-> [r \in 1..Len(s[ds[x]].refs) |-> s[ds[x]].refs[r].to]])
 NamesOfIdx(s, idx) == {KeyOf(s, e) : e \in DefsOf(s, idx)}
+\* the bodies of all definitions of attribute group n, in textual order (the harness splits them into
+\* attributes and drops repeated ones, as irAttrGroupDef's `present` map does)
+AttrBodies(s, n) == LET k == Cardinality({e \in 1..Len(s) : s[e].k = "attr" /\ s[e].n = n}) IN
+                    [x \in 1..k |-> s[CHOOSE e \in 1..Len(s) : s[e].k = "attr" /\ s[e].n = n
+                                                /\ Cardinality({y \in 1..e : s[y].k = "attr" /\ s[y].n = n}) = x].body]
 
 ModuleOf(s) == [ types   |-> SortNames(NamesOfIdx(s, "type")),
                  comdats |-> SortNames(NamesOfIdx(s, "comdat")),
                  globals |-> KeysOfKind(s, "global"), aliases |-> KeysOfKind(s, "alias"),
                  ifuncs  |-> KeysOfKind(s, "ifunc"),  funcs   |-> KeysOfKind(s, "func"),
                  attrs   |-> SortNames(NamesOfIdx(s, "attr")),
+                 attrBodies |-> [x \in 1..Cardinality(NamesOfIdx(s, "attr")) |-> AttrBodies(s, SortNames(NamesOfIdx(s, "attr"))[x])],
                  nmds    |-> SortNames(NamesOfIdx(s, "nmd")),
                  nmdNodes |-> [x \in 1..Cardinality(NamesOfIdx(s, "nmd")) |-> NmdNodes(s, SortNames(NamesOfIdx(s, "nmd"))[x])],
                  mds     |-> SortNames(NamesOfIdx(s, "md")) ]
@@ -360,6 +366,8 @@ AddDefs ==
                        globals |-> KindSeq("global"), aliases |-> KindSeq("alias"),
                        ifuncs  |-> KindSeq("ifunc"),  funcs   |-> KindSeq("func"),
                        attrs   |-> SortNames({n \in Names : old.attr[n] # <<>>}),
+                       attrBodies |-> LET ns == SortNames({n \in Names : old.attr[n] # <<>>}) IN
+                                      [x \in 1..Len(ns) |-> [y \in 1..Len(old.attr[ns[x]]) |-> src[old.attr[ns[x]][y]].body]],
                        nmds    |-> SortNames({n \in Names : old.nmd[n] # <<>>}),
                        nmdNodes |-> LET ns == SortNames({n \in Names : old.nmd[n] # <<>>}) IN
                                     [x \in 1..Len(ns) |-> Concat([y \in 1..Len(old.nmd[ns[x]]) |->
